@@ -42,7 +42,7 @@ pub fn gen_mesh_death(r: &mut Rng, frames: i32) -> Scn {
     // timed the dead peer out (a network may duplicate and delay): old gossip then follows newer gossip
     if r.chance(0.3) {
         let at = s.kill.as_ref().unwrap().at_ms;
-        let g = Straggler { from_ms: at.saturating_sub(r.range(100, 600)), to_ms: at + r.range(50, 300), every: r.range(1, 4), delay_ms: s.timeout_ms + r.range(50, 1500) };
+        let g = Straggler { from_ms: at.saturating_sub(r.range(100, 600)), to_ms: at + r.range(50, 300), every: r.range(1, 4), delay_ms: s.timeout_ms + r.range(50, 1500), hold: false };
         s.link.stragglers.push(g.clone());
         for o in s.link_overrides.iter_mut() {
             o.2.stragglers.push(g.clone());
@@ -58,6 +58,29 @@ pub fn gen_mesh_death(r: &mut Rng, frames: i32) -> Scn {
         cfgs[hang].poll_only.push((k.at_ms.saturating_sub(r.range(30, 300)), k.at_ms + s.timeout_ms + r.range(100, 600)));
         cfgs[hang].polls_per_tick = r.pick(&[1u64, 2]);
         s.nodes = cfgs;
+    }
+    // a late tail: everything the dying peer sends in its last 20..120 ms is LOST towards all survivors but one and HELD
+    // BACK towards that one until after it has dropped the peer (the endpoint of a dropped peer lingers for seconds): all
+    // survivors hold the same last frame when they drop it, and one of them then receives frames beyond that cut-off
+    // (round-7 seed C10). Derived from the scenario seed so that the other draws stay where they were.
+    if (s.seed >> 9) % 6 == 0 {
+        let k = s.kill.clone().unwrap();
+        let lucky = (k.node + 1 + ((s.seed >> 13) % (n as u64 - 1)) as usize) % n;
+        let from = k.at_ms.saturating_sub(20 + (s.seed >> 17) % 100);
+        s.kill.as_mut().unwrap().pdrop = 0.0;
+        for q in 0..n {
+            if q == k.node {
+                continue;
+            }
+            let mut l = s.link_overrides.iter().find(|o| o.0 == peer_addr(k.node) && o.1 == peer_addr(q)).map(|o| o.2.clone()).unwrap_or_else(|| s.link.clone());
+            if q == lucky {
+                l.stragglers.push(Straggler { from_ms: from, to_ms: k.at_ms + 1, every: 1, delay_ms: s.timeout_ms + 100 + (s.seed >> 23) % 1500, hold: true });
+            } else {
+                l.outages.push(Outage { from_ms: from, to_ms: k.at_ms + 1, kinds: 0 });
+            }
+            s.link_overrides.retain(|o| !(o.0 == peer_addr(k.node) && o.1 == peer_addr(q)));
+            s.link_overrides.push((peer_addr(k.node), peer_addr(q), l));
+        }
     }
     s.start = Start::AllRunning;
     s.settle_ms = 1500;
@@ -85,6 +108,9 @@ pub fn run_case(c: &WCase) -> Outcome {
     // own? (Measured from what the simulated network handed over. A run that does not end in a panic goes on until all
     // gossip has caught up, so the end-of-run measurement alone would miss it - it did, thorough tier, seed 7.)
     let stale_online: std::cell::RefCell<std::collections::BTreeMap<(Addr, Addr), String>> = Default::default();
+    // what the network had handed each survivor of the dead peer's input WHEN THAT SURVIVOR DROPPED IT (a late tail that
+    // arrives afterwards must be ignored by the session and does not make the history a split one)
+    let held_at_drop: std::cell::RefCell<std::collections::BTreeMap<Addr, i32>> = Default::default();
     let mut hook = |core: &mut Core, _ni: usize, t: u64| {
         let Some(k) = core.scn.kill.clone() else { return };
         if core.killed_at.is_none() {
@@ -98,6 +124,7 @@ pub fn run_case(c: &WCase) -> Outcome {
                 continue;
             }
             let own = net.max_input_frame_delivered.get(&(dead_addr, x.addr)).copied().unwrap_or(-1);
+            held_at_drop.borrow_mut().entry(x.addr).or_insert(own);
             for y in core.nodes.iter().filter(|n| n.alive && !n.is_spec && n.addr != x.addr) {
                 if let Some(g) = net.gossip_delivered.get(&(y.addr, x.addr)).and_then(|g| g.get(h)) {
                     if g.1 < own {
@@ -161,7 +188,7 @@ pub fn run_case(c: &WCase) -> Outcome {
                 let dead_addr = peer_addr(k.node);
                 let ls: Vec<i32> = {
                     let net = w.net.borrow();
-                    w.nodes.iter().filter(|n| n.alive && !n.is_spec).map(|n| net.max_input_frame_delivered.get(&(dead_addr, n.addr)).copied().unwrap_or(-1)).collect()
+                    w.nodes.iter().filter(|n| n.alive && !n.is_spec).map(|n| held_at_drop.borrow().get(&n.addr).copied().unwrap_or_else(|| net.max_input_frame_delivered.get(&(dead_addr, n.addr)).copied().unwrap_or(-1))).collect()
                 };
                 let views: Vec<Vec<i32>> = w.nodes.iter().filter(|n| n.alive && !n.is_spec).filter_map(|n| n.cs_at_first_disconnect.as_ref().map(|c| dead.iter().map(|h| c[*h].1).collect())).collect();
                 let views_differ = views.iter().any(|x| *x != views[0]);
@@ -267,7 +294,7 @@ pub fn run_case(c: &WCase) -> Outcome {
             let dead_addr = peer_addr(k.node);
             let ls: Vec<i32> = {
                 let net = w.net.borrow();
-                w.nodes.iter().filter(|n| n.alive && !n.is_spec).map(|n| net.max_input_frame_delivered.get(&(dead_addr, n.addr)).copied().unwrap_or(-1)).collect()
+                w.nodes.iter().filter(|n| n.alive && !n.is_spec).map(|n| held_at_drop.borrow().get(&n.addr).copied().unwrap_or_else(|| net.max_input_frame_delivered.get(&(dead_addr, n.addr)).copied().unwrap_or(-1))).collect()
             };
             let tag = if ls.iter().any(|x| *x != ls[0]) {
                 format!(" [split cut-off: after the death the survivors hold different last frames of the dropped player: {ls:?}]")
